@@ -60,6 +60,8 @@ def event_term(ev, sets):
     if t == "runend":
         o = {"ok": "OutOk", "fail": "(OutFail %s)" % cq_z(ev.get("code", 0)), "ctx": "OutCtx"}[ev["o"]]
         return "(EvRunEnd %s %s %s)" % (n_(ev["id"]), n_(ev.get("n", 0)), o)
+    if t == "notify":
+        return "(EvNotify %s %s)" % (n_(ev["id"]), n_(ev.get("n", 0)))
     if t == "deliver":
         return "(EvCancelDeliver %s)" % n_(ev["id"])
     if t == "return":
@@ -93,8 +95,8 @@ def jsnap_term(j):
     sc = "None"
     if j["sched"]:
         s = j["sched"]
-        sc = "(Some (SSnap %s %s %s %s))" % ({"top": "KTop", "scan": "KScan", "exited": "KExited"}[s["phase"]], names(s["todo"]),
-                                             names(s["entry"]), names(s["running"]))
+        sc = "(Some (SSnap %s %s %s %s %s %s))" % ({"top": "KTop", "scan": "KScan", "exited": "KExited"}[s["phase"]], names(s["todo"]),
+                                                   names(s["entry"]), names(s["running"]), names(s.get("nerr") or []), names(s.get("ndone") or []))
     return "(JSnap %s %s %s %s %s %s %s %s %s %s %s %s %s %s %s %s)" % (
         n_(j["id"]), n_(j["pipe"]), cq_bool(j["start"]), cq_bool(j["end"]), cq_bool(j["completed"]), cq_bool(j["canceled"]), ERR[j["lasterr"]],
         cq_bool(j["timer"]), n_(j["delay"]), n_(j["env"]), vkind(j["vars"], j["vn"]), n_(j["user"]),
@@ -147,7 +149,7 @@ def parse_histories(path):
     for line in open(path):
         r = json.loads(line)
         if r["kind"] == "begin":
-            cur = {"hid": r["hid"], "seed": r["seed"], "profile": r["profile"], "sets": r["sets"], "pre": r.get("pre") or [], "steps": [], "failure": ""}
+            cur = {"hid": r["hid"], "seed": r["seed"], "profile": r["profile"], "sets": r["sets"], "pre": r.get("pre") or [], "snap0": r.get("snap0"), "steps": [], "failure": ""}
         elif r["kind"] == "step":
             cur["steps"].append(r)
         elif r["kind"] == "end":
